@@ -74,7 +74,16 @@ def main():
 
     # 3+4: correspondence and oracle
     if cfg['engine'] == 'leaf':
-        res = LE.run(pid, tier, a.seed)
+        if proof.get('facts_fallback'):
+            # the source-fact translator could not read the (rewritten) generator code: the theorems about the
+            # regenerated constants are about the last readable source; tie by correspondence alone, run deeper
+            res = LE.run(pid, 'thorough', a.seed)
+            res['assumptions'] = list(res.get('assumptions', [])) + [
+                'source facts NOT regenerated in this run (%s): the generator model is tied to the current source by the '
+                'differential correspondence run only (executed at thorough depth)' % proof['facts_fallback'][:300]]
+            print('note: source-fact translator unavailable, correspondence-only tie: %s' % proof['facts_fallback'][:200], file=sys.stderr)
+        else:
+            res = LE.run(pid, tier, a.seed)
     elif cfg['engine'] == 'c17':
         res = LE.run_c17(tier, a.seed)
     else:
